@@ -79,3 +79,27 @@ M("c04_validate_order_swapped", ["C04"],
             )
         self.validate_reserved_bits()
 """), equivalent=True)
+
+# ---- C05 -----------------------------------------------------------------
+M("c05_dfa_allow_surrogates", ["C05"],
+  ("lomond/utf8validator.py", "    0xa, 0x3, 0x3, 0x3, 0x3, 0x3, 0x3, 0x3, 0x3, 0x3, 0x3, 0x3, 0x3, 0x4, 0x3, 0x3,  # e0..ef",
+   "    0xa, 0x3, 0x3, 0x3, 0x3, 0x3, 0x3, 0x3, 0x3, 0x3, 0x3, 0x3, 0x3, 0x3, 0x3, 0x3,  # e0..ef"))
+M("c05_dfa_allow_f5", ["C05"],
+  ("lomond/utf8validator.py", "    0xb, 0x6, 0x6, 0x6, 0x5, 0x8, 0x8, 0x8,", "    0xb, 0x6, 0x6, 0x6, 0x5, 0x6, 0x8, 0x8,"))
+M("c05_dfa_allow_c1", ["C05"],
+  ("lomond/utf8validator.py", "    8, 8, 2, 2, 2, 2, 2, 2, 2, 2, 2, 2, 2, 2, 2, 2, 2, 2, 2, 2, 2, 2, 2, 2, 2, 2, 2, 2, 2, 2, 2, 2,  # c0..df",
+   "    8, 2, 2, 2, 2, 2, 2, 2, 2, 2, 2, 2, 2, 2, 2, 2, 2, 2, 2, 2, 2, 2, 2, 2, 2, 2, 2, 2, 2, 2, 2, 2,  # c0..df"))
+M("c05_no_validator_reset_at_message_end", ["C05"],
+  ("lomond/frame_parser.py", "            self._utf8_validator.reset()\n", "            pass\n"),
+  equivalent=True)  # a message that ends mid-character is fatal anyway, otherwise the state is already 'accept'
+M("c05_close_reason_not_validated", ["C05"],
+  ("lomond/message.py", "            if not is_valid:", "            if False:"),
+  ("lomond/message.py", "                reason = reason_bytes.decode('utf-8')", "                reason = reason_bytes.decode('utf-8', 'replace')"))
+M("c05_revert_fix_is_text", ["C05"],
+  ("lomond/frame_parser.py", "        if frame.fin and not frame.is_control:\n            self._is_text = False", "        if frame.fin:\n            self._is_text = False"))
+M("c05_validator_reset_per_frame", ["C05", "C02"],
+  ("lomond/frame_parser.py", "            and frame.fin\n            and (frame.is_text or frame.is_continuation)", "            and (frame.is_text or frame.is_continuation)"))
+M("c05_no_incremental_validation", ["C05"],
+  ("lomond/frame_parser.py", "        if self._compression:\n            return self.read(length)", "        if True:\n            return self.read(length)"))
+M("c05_validate_twice", ["C05"],
+  ("lomond/message.py", "            text = payload.decode('utf-8')\n", "            text = payload.decode('utf-8')\n            text.encode('utf-8')\n"), equivalent=True)
